@@ -715,7 +715,7 @@ fn do_native(l: &mut Local, a: &str, b: &str, entry: Entry, log: bool) {
 
 fn run(sc: &Sc, log: bool) -> Local {
     let mut l = Local::default();
-    for k in ["query_on_memo_with_history", "oracle_says_no", "memo_grew", "recursion_guard_tripped", "text_program_did_not_load", "text_report_errored", "transitivity_checked"] {
+    for k in ["query_on_memo_with_history", "oracle_says_no", "memo_grew", "recursion_guard_tripped", "text_program_did_not_load", "text_report_errored", "transitivity_checked", "spec_relation_itself_not_transitive_here"] {
         l.probes.entry(k.to_string()).or_insert(0);
     }
     if let Some(i) = sc.exhaust {
@@ -743,6 +743,13 @@ fn run(sc: &Sc, log: bool) -> Local {
                 l.probe("transitivity_checked");
                 let mut fresh = Gamma::default();
                 if real_query(Entry::Silence, &mut fresh, &r.tenv, &to_type(&a), &to_type(&c)) == Ok(false) {
+                    if !gfp::subtype(&r.senv, &a, &c) {
+                        // The relation defined by the spec's rules is itself not transitive in this corner
+                        // (record {f : text} <: record {} <: record {f : null}, but text </: null): the
+                        // implementation agrees with the rules, which is what the property's main clause asks.
+                        l.probe("spec_relation_itself_not_transitive_here");
+                        continue;
+                    }
                     l.viol.push((
                         "transitivity".into(),
                         format!("{} <: {} <: {}", show_type(&a), show_type(&b), show_type(&c)),
